@@ -50,29 +50,37 @@ Fixpoint all_some {A} (l : list (option A)) : option (list A) :=
 Definition nz (l : list Z) (k : nat) : Z := nth k l 0.
 
 (* ---- matrix fill ----------------------------------------------------------------------------- *)
-(* first row: for each j: (value, trace, maxa) *)
-Fixpoint first_row (sc : scheme) (scores : list Z) (prev_val prev_tr : Z) (j : nat) : list (Z * Z * Z) :=
+(* first row: for each j: (value, trace, maxa).  [bx]: best score of a gap in row 1 ending in the previous cell
+   (None before any cell: the float -Inf of the code); the gap ending here extends it or opens after the cell on the
+   left - the recurrence of the inner cells *)
+Definition gap_acc (sc : scheme) (acc : option Z) (prev_val : Z) : Z :=
+  match acc with
+  | None => prev_val + sc_open sc
+  | Some b => Z.max (b + sc_extend sc) (prev_val + sc_open sc)
+  end.
+
+Fixpoint first_row (sc : scheme) (scores : list Z) (prev_val : Z) (bx : option Z) (j : nat) : list (Z * Z * Z) :=
   match scores with
   | [] => []
   | m :: t =>
-      let fnew := if Nat.eqb j 0 then 0
-                  else prev_val + (if Z.eqb prev_tr T_LEFT then sc_extend sc else sc_open sc) in
+      let bx' := if Nat.eqb j 0 then None else Some (gap_acc sc bx prev_val) in
+      let fnew := match bx' with None => 0 | Some b => b end in
       let '(v, tr) := if (fnew <? m) && (0 <? m) then (m, T_DIAG)
                       else if 0 <? fnew then (fnew, T_LEFT) else (0, T_DIAG) in
       let maxa := v + sc_open sc in     (* a gap below a first-row cell is always opened there *)
-      (v, tr, maxa) :: first_row sc t v tr (S j)
+      (v, tr, maxa) :: first_row sc t v bx' (S j)
   end.
 
-(* first column: for each i: (value, trace) *)
-Fixpoint first_col (sc : scheme) (scores : list Z) (prev_val prev_tr : Z) (i : nat) : list (Z * Z) :=
+(* first column: for each i: (value, trace); [ma]: best score of a gap in row 2 ending in the previous cell *)
+Fixpoint first_col (sc : scheme) (scores : list Z) (prev_val : Z) (ma : option Z) (i : nat) : list (Z * Z) :=
   match scores with
   | [] => []
   | m :: t =>
-      let fnew := if Nat.eqb i 0 then 0
-                  else prev_val + (if Z.eqb prev_tr T_UP then sc_extend sc else sc_open sc) in
+      let ma' := if Nat.eqb i 0 then None else Some (gap_acc sc ma prev_val) in
+      let fnew := match ma' with None => 0 | Some b => b end in
       let '(v, tr) := if (fnew <? m) && (0 <? m) then (m, T_DIAG)
                       else if 0 <? fnew then (fnew, T_UP) else (0, T_DIAG) in
-      (v, tr) :: first_col sc t v tr (S i)
+      (v, tr) :: first_col sc t v ma' (S i)
   end.
 
 (* one inner row, columns j >= 1.  [prow]: previous row values (all columns);
@@ -127,13 +135,13 @@ Definition fill (sc : scheme) (which : Z) (s1 s2 : list (byte * Z)) : filled :=
   match s1 with
   | [] => mkfilled [] [] 0 0 0
   | (c10, i10) :: rest1 =>
-      let row0 := first_row sc (map (fun x => match_score sc which c10 (fst x) i10 (snd x)) s2) 0 0 0 in
+      let row0 := first_row sc (map (fun x => match_score sc which c10 (fst x) i10 (snd x)) s2) 0 None 0 in
       let vals0 := map (fun x => fst (fst x)) row0 in
       let tr0 := map (fun x => snd (fst x)) row0 in
       let maxa0 := map snd row0 in
       let best0 := fst (fold_left (fun (st : (Z * Z * Z) * Z) v => (upd_max (fst st) v 0 (snd st), snd st + 1)) vals0 ((0, 0, 0), 0)) in
       let c20 := match s2 with x :: _ => x | [] => (x00, 0) end in
-      let fcol := first_col sc (map (fun x => match_score sc which (fst x) (fst c20) (snd x) (snd c20)) s1) 0 0 0 in
+      let fcol := first_col sc (map (fun x => match_score sc which (fst x) (fst c20) (snd x) (snd c20)) s1) 0 None 0 in
       let best1 := fst (fold_left (fun (st : (Z * Z * Z) * Z) c => (upd_max (fst st) (fst c) (snd st) 0, snd st + 1)) fcol (best0, 0)) in
       match s2 with
       | [] => mkfilled (map (fun _ => []) s1) (map (fun _ => []) s1) 0 0 0
